@@ -12,7 +12,7 @@ RULE = ("streams of 1-3 pipelined requests from an obfuscating HTTP grammar gene
         "non-empty body or a pipelined successor, or the reference returned a listed reject class); "
         "plus a worker-level slice (engine W): conforming keep-alive pipelines served by real sync/gthread/gevent/eventlet worker objects "
         "while the application reads all / some / nothing of each body: the (method, target) sequence handed to the application equals "
-        "the reference reading and no error page is produced. distinct by sha1 of the case")
+        "the reference reading and no error page is produced (also with the n-th read failing with ECONNRESET / ETIMEDOUT: a chunked body whose end never arrived is not handed over as complete). distinct by sha1 of the case")
 ASSUMPTIONS = [
     "documented-unsafe parser modes (permit_obsolete_folding, strip_header_spaces, header_map=dangerous, "
     "permit_unconventional_http_*, casefold_http_method) stay off",
@@ -52,7 +52,9 @@ def _worker_case(draw):
     reqs = [draw(gen_http.conforming_request(with_body=draw(st.sampled_from([True, True, False])), version="HTTP/1.1")) for _ in range(n)]
     return {"engine": "W", "kind": draw(st.sampled_from(["gthread", "gevent", "eventlet", "sync"])),
             "stream": "".join(r["raw"] for r in reqs), "read_input": draw(st.sampled_from(["none", "none", "some", "line", "all"])),
-            "cuts": draw(st.lists(st.integers(1, 300), max_size=3))}
+            "cuts": draw(st.lists(st.integers(1, 300), max_size=3)),
+            # the connection fails (reset / timed out) at the n-th read of the worker
+            "recv_fault": draw(st.one_of(st.none(), st.none(), st.tuples(st.integers(1, 4), st.sampled_from([104, 110])).map(list)))}
 
 
 def strategy(tier):
@@ -81,10 +83,22 @@ def run_worker(case):
     env = wenv.Env(kind, wenv.make_cfg(keepalive=2, worker_connections=10, threads=2), app)
     cuts = sorted(set(c for c in case.get("cuts", []) if 0 < c < len(stream)))
     segs = [stream[a:b] for a, b in zip([0] + cuts, cuts + [len(stream)])]
-    sock = wenv.FakeSocket(segs)
+    rf = case.get("recv_fault")
+    sock = wenv.FakeSocket(segs, recv_fault=tuple(rf) if rf else None)
     escaped = env.serve(sock)
     vio = []
     wire = sock.received()
+    if rf:
+        # the stream was cut by a failing read: nothing is demanded about how far the worker got, except that a chunked body whose
+        # terminating chunk never arrived is not handed to the application as if it were complete
+        for c, r in zip(app.calls, refs):
+            if case["read_input"] == "all" and r.framing == "chunked" and c["raised"] is None and c["input"] is not None \
+                    and c["input"] != r.body and sock.recv_errors:
+                vio.append(Violation("body-exact", "C01/worker:truncated-chunked-body-handed-over-as-complete:" + kind,
+                                     observed={"got_len": len(c["input"]), "sent_len": len(r.body), "fault": rf}, expected="an error from wsgi.input"))
+                break
+        return Outcome(vio, True, ["engine:W", "kind:" + kind, "read:" + case["read_input"], "recv-fault:%s" % bool(sock.recv_errors)],
+                       sample={"case": {k: case[k] for k in ("kind", "read_input", "recv_fault")}})
     got = [(c["environ"].get("REQUEST_METHOD"), c["environ"].get("RAW_URI")) for c in app.calls]
     want = [(r.method.decode("latin-1"), r.target.decode("latin-1")) for r in refs]
     # sync serves one request per connection; gthread leaves a pipelined request that is already in the parser's buffer unserved
